@@ -20,6 +20,17 @@ a liquidity handler, or a new rejecting guard over substrate values, shows up he
 theorem coinswap_translated_pinned : Irismod.Gen.PureCoinswap.translated =
     ["GetInputPrice(inputAmt,inputReserve,outputReserve,fee)",
      "GetOutputPrice(outputAmt,inputReserve,outputReserve,fee)",
+     "calcExactIn_boughtTokenAmt_1(exactSoldCoin,inputReserve,outputReserve,param_Fee)",
+     "calcExactIn_guard_1(inputReserve)",
+     "calcExactIn_guard_2(outputReserve)",
+     "calcExactOut_soldTokenAmt_1(exactBoughtCoin,inputReserve,outputReserve,param_Fee)",
+     "calcExactOut_guard_1(inputReserve)",
+     "calcExactOut_guard_2(outputReserve)",
+     "calcExactOut_guard_3(exactBoughtCoin,outputReserve)",
+     "TradeExactIn_guard_1(boughtTokenAmt,output_Coin)",
+     "TradeExactOut_guard_1(soldTokenAmt,input_Coin)",
+     "DoubleExactIn_guard_1(boughtAmt,output_Coin)",
+     "DoubleExactOut_guard_1(soldTokenAmt,input_Coin)",
      "AddLiquidity_mintLiquidityAmt_1(msg_ExactStandardAmt)",
      "AddLiquidity_mintLiquidityAmt_2(msg_ExactStandardAmt)",
      "AddLiquidity_mintLiquidityAmt_3(liquidity,msg_ExactStandardAmt,standardReserveAmt)",
@@ -103,6 +114,31 @@ theorem GetOutputPrice_eq_model (dy X Y fee : Nat) (hfee : fee ≤ D) (hdy : dy 
     have h1' : ((1 : Int)) = ((1 : Nat) : Int) := rfl
     rw [h1', Int_Add_nat]
     by_cases h5 : a * D / c + 1 < pow2_256 <;> simp only [h5, if_true, if_false, decide_true, decide_false, Option.map_some, Option.map_none] <;> rfl
+
+/-! ### the swap path (keeper/swap.go): which reserve is the input side, which amount is priced, which bound is
+compared with which amount -/
+
+/-- the priced quantities: an exact-input order buys `GetInputPrice(sold, inputReserve, outputReserve, fee)`, an
+exact-output order sells `GetOutputPrice(bought, inputReserve, outputReserve, fee)` — in this argument order -/
+theorem swap_pricing_calls (c : GoSem.Coin) (x y : Int) (fee : Dec) :
+    calcExactIn_boughtTokenAmt_1 c x y fee = GetInputPrice c.amount x y fee ∧
+    calcExactOut_soldTokenAmt_1 c x y fee = GetOutputPrice c.amount x y fee := by
+  unfold calcExactIn_boughtTokenAmt_1 calcExactOut_soldTokenAmt_1
+  constructor
+  · cases GetInputPrice c.amount x y fee <;> simp only [obind_some, obind_none]
+  · cases GetOutputPrice c.amount x y fee <;> simp only [obind_some, obind_none]
+
+/-- the rejecting guards of the swap path: empty reserves, an exact output not below the reserve, the user's bounds
+(minimum bought on an exact-input order, maximum sold on an exact-output order; single and routed) -/
+theorem swap_guards (x y amt bound : Int) (c : GoSem.Coin) :
+    calcExactIn_guard_1 x = some (!decide (0 < x)) ∧ calcExactIn_guard_2 y = some (!decide (0 < y)) ∧
+    calcExactOut_guard_1 x = some (!decide (0 < x)) ∧ calcExactOut_guard_2 y = some (!decide (0 < y)) ∧
+    calcExactOut_guard_3 c y = some (decide (y ≤ c.amount)) ∧
+    TradeExactIn_guard_1 amt c = some (decide (amt < c.amount)) ∧
+    TradeExactOut_guard_1 amt c = some (decide (c.amount < amt)) ∧
+    DoubleExactIn_guard_1 amt c = some (decide (amt < c.amount)) ∧
+    DoubleExactOut_guard_1 amt c = some (decide (c.amount < amt)) :=
+  ⟨rfl, rfl, rfl, rfl, rfl, rfl, rfl, rfl, rfl⟩
 
 /-! ### arithmetic inside the liquidity handlers (keeper/keeper.go): every assignment to the variables that
 carry the minted / deposited / withdrawn amounts, and every rejecting guard over them, translated on its own
